@@ -6,7 +6,7 @@ import re
 from pathlib import Path
 
 from ..core.absint import AV, Alt, App, Const, ListV, Obj, Rep, State, StrT, Sym, walk_av
-from ..core.ctx import GEN, GENSTUBS, GHELPER, VISITOR, Ctx
+from ..core.ctx import GEN, GENSTUBS, GETAPI, GHELPER, VISITOR, Ctx
 from ..core.report import VERIF, Collector
 from ..core.source import AnalysisError
 from .common import GENCLS, render
@@ -390,6 +390,24 @@ def check(ctx: Ctx, col: Collector, tier: str) -> None:
     good = all(isinstance(t.value, App) and t.value.func == "_create_outside_package_class_text" for t in ts) and ts
     (col.ok if good else col.bad)("C02.HEADER", f"{GENSTUBS}::_create_outside_package_class::append-has-no-header", repo.loc(GENSTUBS, em.funcs["_create_outside_package_class"].node),
                                   "appended text is a bare class declaration" if good else "unexpected appended text", *([] if good else ["text appended to an existing placeholder stub is not a bare class declaration"]))
+
+    # the segments of the package line are the names of the analysed files: every *.py file is analysed, also `run-tests.py` or `2to3.py`
+    ident_tests = []
+    for rel2, quals in ((GETAPI, ("get_api",)), (GEN, (f"{GENCLS}._create_module_string",)), (GENSTUBS, ("generate_stub_data", "create_stub_files")), (GHELPER, ("_replace_if_safeds_keyword_in_path",))):
+        for q in quals:
+            fi2 = repo.maybe_function(rel2, q)
+            if fi2 is None:
+                continue
+            for n in ast.walk(fi2.node):
+                if isinstance(n, ast.Call) and isinstance(n.func, ast.Attribute) and n.func.attr == "isidentifier":
+                    ident_tests.append(f"{q}:{n.lineno}")
+                if isinstance(n, ast.Call) and ast.unparse(n.func) in ("re.fullmatch", "re.match") and n.args and isinstance(n.args[0], ast.Constant) and "a-zA-Z" in str(n.args[0].value):
+                    ident_tests.append(f"{q}:{n.lineno}")
+    gfi2 = repo.function(GETAPI, "get_api")
+    (col.ok if ident_tests else col.bad)("C02.HEADER", f"{GETAPI}::get_api::module-names-are-identifiers", repo.loc(GETAPI, gfi2.node),
+                                         f"file names / path segments are tested for being identifiers ({ident_tests[:2]})" if ident_tests else "no identifier test between file discovery and the package line",
+                                         *([] if ident_tests else ["every *.py file below the source root is analysed and its name becomes a segment of the package line; only keywords are treated: "
+                                                                   "`pkg/run-tests.py` gives `package pkg.run-tests`, `pkg/2to3.py` gives `package pkg.2to3` (no Safe-DS identifiers, with or without back-quotes)"]))
 
     # ------------------------------------------------------------------ TODO-LINES
     fl = [t for t in em.templates if em.name_of(t.fi) == "_create_todo_msg" and not (isinstance(t.value, Const) and t.value.v == "")]
